@@ -49,6 +49,11 @@ def control_vectors(U, p, n):
         out.append(("small", v, None))
     out.append(("2d", al.generic_points(n, 2), None))
     out.append(("rational", al.generic_points(n), al.generic_weights(n)))
+    if p >= 1 and len(ks) > 2:
+        # a line with a kink of 1e-6 at the control point in the middle: every interior knot is removable within the default
+        # tolerance (squared error ~1e-12) and none is removable exactly - clean(0) must keep them all
+        line = global_poly((-1, 2))
+        out.append(("almost", [x + (F(1, 10 ** 6) if i == n // 2 else 0) for i, x in enumerate(line)], None))
     return out
 
 
@@ -133,7 +138,7 @@ def run_case(case, res):
             if not now.same(D0):
                 if poly_curve and now.is_polynomial():
                     dev = max(D0.sq_dev(now))
-                    bound = 2 * F(1, 10 ** 9) * max(F(1), U[-1] - U[0])
+                    bound = 0 if name == "clean0" else 2 * F(1, 10 ** 9) * max(F(1), U[-1] - U[0])
                     if dev > bound:
                         res.violation("curve_changed", f"{where}: {name}() changed the curve (squared deviation {float(dev):.3e}); "
                                       f"knots {list(c.knotvector)} ctrlpoints {c.ctrlpoints}", **tags)
@@ -169,7 +174,8 @@ def run_case(case, res):
             live = build((U, P, W))
             for name, arg in path:
                 lib.outcome(live.degree_increase, 1) if arg is None else lib.outcome(live.knot_insert, list(arg))
-            o = lib.outcome(live.clean)
+            # ("almost" data: the default tolerance may accept inexact removals, so the exact request is made there)
+            o = lib.outcome(live.clean, 0) if lab == "almost" else lib.outcome(live.clean)
             if o[0] != "ok" or lib.exact_curve(live) != minimal:
                 res.violation("not_minimal", f"initial U={U} P={P}: history {[x[0] for x in path]} on one object, then clean(): "
                               f"{o[:2] if o[0] != 'ok' else lib.exact_curve(live)[:2]}, minimal form is {minimal[:2]}", call="clean",
